@@ -271,6 +271,7 @@ def normaliser_rule(F, R, constants=None):
             continue
         m = model(F, v)
         ok = False
+        further = ''
         detail = 'no self-normalised output X / sqrt(a·X² + b·prev) found'
         for cell, t in m.up_fields.items():
             for x in subterms(t):
@@ -291,11 +292,31 @@ def normaliser_rule(F, R, constants=None):
                             # the leaky register must be assigned exactly Y
                             if m.up_fields.get(b[1]) is not None and delivering_value(m, b[1]) == Y:
                                 ok = True
+                                # ... and the value handed out is that quotient itself (or 0 / the held value on the degenerate
+                                # branch), not a further function of it
+                                from .terms import cases as _cases
+                                for oc in m.output_cells():
+                                    tv = m.up_fields.get(oc)
+                                    if tv is None:
+                                        continue
+                                    try:
+                                        leaves = [lf for _, lf in _cases(tv)]
+                                    except OverflowError:
+                                        leaves = []
+                                    for lf in leaves:
+                                        core = lf[1] if (isinstance(lf, tuple) and lf and lf[0] == 'some') else lf
+                                        if core in (x, ('in', oc), lit(0.0), ('none',)) or lf == ('in', oc):
+                                            continue
+                                        if any(y == x for y in subterms(core)):
+                                            ok = False
+                                            further = 'the reported value %s is a further function of the normalised quotient X/sqrt(Y), not the quotient itself' % tstr(core)[:70]
                                 if constants is not None:
                                     okc = abs(a - constants[0]) < 1e-12 and abs(b[0] - constants[1]) < 1e-12
                                     R.ob('K2-coef', '%s:normaliser' % n, okc, 'leaky mean square uses %.4g·X² + %.4g·previous' % (a, b[0]) if okc else
                                          'leaky mean square uses %.4g / %.4g, the defining equation has %.4g / %.4g' % (a, b[0], constants[0], constants[1]), v.file)
                                 detail = 'out = X/sqrt(%.2f·X² + %.2f·%s): leak factor %.2f < 1 and |out| <= %.3g by construction' % (a, b[0], b[1], b[0], 1 / math.sqrt(a))
+                                if not ok and further:
+                                    detail = further
                             else:
                                 detail = 'the leaky mean-square register %s is not assigned exactly the mean square used for normalisation on every delivered value (it takes %s)' % (
                                     b[1], tstr(delivering_value(m, b[1]))[:80])
@@ -656,7 +677,8 @@ def pfe_sign_rule(F, R):
             if x[0] == 'child':
                 V = x
         for conds, leaf in cases_deep(fed):
-            negated = leaf[0] == 'op' and leaf[1] == 'neg'
+            # (-(a / b) is stored as (-a) / b: the value graph's one spelling of a negated quotient)
+            negated = (leaf[0] == 'op' and leaf[1] == 'neg') or (leaf[0] == 'op' and leaf[1] == 'div' and leaf[2][0][0] == 'op' and leaf[2][0][1] == 'neg')
             allowed = {'<', '=', '>'}
             prevs = set()
             for c in conds:
